@@ -241,6 +241,12 @@ EXPORT int snwprintf_s(wchar_t *restrict dest, rsize_t dmax,
         handle_werror(dest, dmax, errstr, -ret);
         return ret;
     }
+#ifdef SAFECLIB_STR_NULL_SLACK
+    else {
+        /* null the slack behind the result */
+        memset(&dest[ret], 0, (dmax - ret) * sizeof(wchar_t));
+    }
+#endif
 #endif
 
     return ret;
